@@ -158,12 +158,12 @@ def simulate_and_compare(top, ftop, design, seq):
       obj = t_
       if ip:
         for part in ip.split("."): obj = getattr(obj, part)
-      out[(ip + "." if ip else "") + n] = int(getattr(obj, n).to_bits())
+      out[(ip + "." if ip else "") + n] = int(rtl_sim.sig_of(obj, n).to_bits())
     return out
   for t, cyc in enumerate(seq):
     for tp in (top, ftop):
       for p, v in cyc["in"].items():
-        cur = getattr(tp, p); cur @= Bits(cur.nbits, v)
+        cur = rtl_sim.sig_of(tp, p); cur @= Bits(cur.nbits, v)
       tp.reset @= cyc.get("reset", 0)
     for p, v in cyc["in"].items(): m.set_input(p, v)
     m.state[("", "reset")] = cyc.get("reset", 0)
